@@ -1239,3 +1239,6 @@ mod table_tests {
         );
     }
 }
+
+#[cfg(feature = "verif")]
+pub(crate) mod verif_hooks;
